@@ -156,6 +156,7 @@ def run(ctx):
     hs_ms = sg.multistudy_histories(ctx.rng, 48 if ctx.quick else 500)
     hs_ms += sg.compat_histories(ctx.rng, 60 if ctx.quick else 384)
     hs_ms += sg.delete_histories(ctx.rng, 30 if ctx.quick else 300)
+    hs_ms += sg.waiting_histories(ctx.rng, 30 if ctx.quick else 300)
     plan = []
     for c in sd.CONFIGS:
         if c in sd.SLOW:
